@@ -550,6 +550,250 @@ theorem resolveGo_spec {names : List Name} :
         · simp only [List.filter_cons, hc, Bool.false_eq_true, if_false]
           exact R.nodup
 
+/-- which item name the loop hands out: the attribute's own (singular) one, or —
+only for a collection whose own one is an attribute name, was taken before the
+loop started, or is the item name some collection ended up with — `<attr>_item` -/
+theorem resolveGo_choice {names : List Name} :
+    ∀ (as : List AttrInfo) (taken : List Name) (as' : List AttrInfo),
+      resolveGo names as taken = .ok as' →
+      ∀ a' ∈ as', ∃ a ∈ as, a'.name = a.name ∧ a'.kind = a.kind ∧ a'.owned = a.owned ∧
+        a'.helpers = a.helpers ∧
+        (a'.item = a.item ∨
+         (a.kind.isCollection = true ∧ a'.item = a.name ++ itemSuffix ∧
+          (a.item ∈ names ∨ a.item ∈ taken ∨
+            ∃ b' ∈ as', b'.kind.isCollection = true ∧ b'.item = a.item))) := by
+  intro as
+  induction as with
+  | nil =>
+    intro taken as' h
+    simp [resolveGo] at h; subst h
+    intro a' ha'; cases ha'
+  | cons a rest ih =>
+    intro taken as' h
+    unfold resolveGo at h
+    by_cases hc : a.kind.isCollection = true
+    · simp only [hc, Bool.not_true, Bool.false_eq_true, if_false] at h
+      split at h
+      · cases h
+      · rename_i hfail
+        cases hr : resolveGo names rest (taken ++ [if (names.contains a.item || taken.contains a.item) = true
+            then a.name ++ itemSuffix else a.item]) with
+        | error e => rw [hr] at h; cases h
+        | ok r =>
+          rw [hr] at h
+          injection h with h; subst h
+          intro a' ha'
+          rcases List.mem_cons.1 ha' with rfl | hin
+          · refine ⟨a, List.mem_cons_self, rfl, rfl, rfl, rfl, ?_⟩
+            by_cases hcol : (names.contains a.item || taken.contains a.item) = true
+            · right
+              refine ⟨hc, if_pos hcol, ?_⟩
+              simp only [Bool.or_eq_true, List.contains_eq_mem, decide_eq_true_eq] at hcol
+              rcases hcol with h1 | h1
+              · exact Or.inl h1
+              · exact Or.inr (Or.inl h1)
+            · left; exact if_neg hcol
+          · obtain ⟨a0, ha0, h1, h2, h3, h4, h5⟩ := ih _ _ hr a' hin
+            refine ⟨a0, List.mem_cons_of_mem _ ha0, h1, h2, h3, h4, ?_⟩
+            rcases h5 with h5 | ⟨hk, hfb, hw⟩
+            · exact Or.inl h5
+            · right
+              refine ⟨hk, hfb, ?_⟩
+              rcases hw with hw | hw | ⟨b', hb', hbk, hbi⟩
+              · exact Or.inl hw
+              · rcases List.mem_append.1 hw with hw | hw
+                · exact Or.inr (Or.inl hw)
+                · right; right
+                  refine ⟨_, List.mem_cons_self, hc, ?_⟩
+                  exact (List.mem_singleton.1 hw).symm
+              · exact Or.inr (Or.inr ⟨b', List.mem_cons_of_mem _ hb', hbk, hbi⟩)
+    · simp only [hc, Bool.not_false, if_true] at h
+      cases hr : resolveGo names rest taken with
+      | error e => rw [hr] at h; cases h
+      | ok r =>
+        rw [hr] at h
+        injection h with h; subst h
+        intro a' ha'
+        rcases List.mem_cons.1 ha' with rfl | hin
+        · exact ⟨a', List.mem_cons_self, rfl, rfl, rfl, rfl, Or.inl rfl⟩
+        · obtain ⟨a0, ha0, h1, h2, h3, h4, h5⟩ := ih _ _ hr a' hin
+          refine ⟨a0, List.mem_cons_of_mem _ ha0, h1, h2, h3, h4, ?_⟩
+          rcases h5 with h5 | ⟨hk, hfb, hw⟩
+          · exact Or.inl h5
+          · right
+            refine ⟨hk, hfb, ?_⟩
+            rcases hw with hw | hw | ⟨b', hb', hbk, hbi⟩
+            · exact Or.inl hw
+            · exact Or.inr (Or.inl hw)
+            · exact Or.inr (Or.inr ⟨b', List.mem_cons_of_mem _ hb', hbk, hbi⟩)
+
+/-- a prefix of the list whose collections cannot collide — their item names are
+no attribute names, were not taken, and are pairwise distinct — leaves the loop
+exactly as it entered it, whatever follows -/
+theorem resolveGo_prefix_kept {names : List Name} :
+    ∀ (pre post : List AttrInfo) (taken : List Name) (as' : List AttrInfo),
+      resolveGo names (pre ++ post) taken = .ok as' →
+      (∀ a ∈ pre, a.kind.isCollection = true → a.item ∉ names ∧ a.item ∉ taken) →
+      ((pre.filter (·.kind.isCollection)).map (·.item)).Nodup →
+      ∃ post', as' = pre ++ post' := by
+  intro pre
+  induction pre with
+  | nil => intro post taken as' _ _ _; exact ⟨as', rfl⟩
+  | cons a pre ih =>
+    intro post taken as' h hq hnd
+    rw [List.cons_append] at h
+    unfold resolveGo at h
+    by_cases hc : a.kind.isCollection = true
+    · simp only [hc, Bool.not_true, Bool.false_eq_true, if_false] at h
+      obtain ⟨h1, h2⟩ := hq a List.mem_cons_self hc
+      have hcol : ¬ (names.contains a.item || taken.contains a.item) = true := by simp [h1, h2]
+      simp only [List.filter_cons, hc, if_true, List.map_cons, List.nodup_cons] at hnd
+      split at h
+      · cases h
+      · try rw [if_neg hcol] at h
+        cases hr : resolveGo names (pre ++ post) (taken ++ [a.item]) with
+        | error e => rw [hr] at h; cases h
+        | ok r =>
+          rw [hr] at h
+          injection h with h; subst h
+          obtain ⟨post', hp⟩ := ih post _ r hr (by
+            intro b hb hbc
+            obtain ⟨g1, g2⟩ := hq b (List.mem_cons_of_mem _ hb) hbc
+            refine ⟨g1, ?_⟩
+            intro hm
+            rcases List.mem_append.1 hm with hm | hm
+            · exact g2 hm
+            · apply hnd.1
+              rw [← List.mem_singleton.1 hm]
+              exact List.mem_map.2 ⟨b, List.mem_filter.2 ⟨hb, hbc⟩, rfl⟩) hnd.2
+          exact ⟨post', by rw [hp]; rfl⟩
+    · simp only [hc, Bool.not_false, if_true] at h
+      have hnd' : ((pre.filter (·.kind.isCollection)).map (·.item)).Nodup := by
+        simpa [List.filter_cons, hc] using hnd
+      cases hr : resolveGo names (pre ++ post) taken with
+      | error e => rw [hr] at h; cases h
+      | ok r =>
+        rw [hr] at h
+        injection h with h; subst h
+        obtain ⟨post', hp⟩ := ih post _ r hr
+          (fun b hb hbc => hq b (List.mem_cons_of_mem _ hb) hbc) hnd'
+        exact ⟨post', by rw [hp]; rfl⟩
+
+/-! ## `mergedAttrs` -/
+
+/-- the `Attr` built for a name the class manages itself -/
+def mkOwn (singular : Name → Option Name) (c : Cls) (a : Name) : AttrInfo :=
+  ⟨a, attrKind c a, itemName0 singular a, true, true⟩
+
+/-- the inherited attributes as they enter the collision loop, in the parent's
+order: carried over, or (when the class manages the name again) rebuilt in place -/
+def inheritedPart (singular : Name → Option Name) (c : Cls) : List AttrInfo :=
+  c.inherited.map (fun i =>
+    if (managedAttrs c).contains i.name then mkOwn singular c i.name
+    else ⟨i.name, i.kind, i.item, false, true⟩)
+
+/-- `metadata.attrs` before the un-managed key attribute is added -/
+def mergedBase (singular : Name → Option Name) (c : Cls) : List AttrInfo :=
+  inheritedPart singular c ++
+  ((managedAttrs c).filter (fun a => !(c.inherited.map (·.name)).contains a)).map (mkOwn singular c)
+
+def mergedKey (singular : Name → Option Name) (c : Cls) : List AttrInfo :=
+  match c.key with
+  | some k => if ((mergedBase singular c).map (·.name)).contains k then []
+              else [⟨k, attrKind c k, itemName0 singular k, true, false⟩]
+  | none => []
+
+theorem mergedAttrs_eq (singular : Name → Option Name) (c : Cls) :
+    mergedAttrs singular c = mergedBase singular c ++ mergedKey singular c := by
+  unfold mergedAttrs mergedKey mergedBase inheritedPart mkOwn
+  cases c.key with
+  | none => simp
+  | some k =>
+    simp only
+    split <;> simp
+
+theorem mergedBase_names (singular : Name → Option Name) (c : Cls) :
+    (mergedBase singular c).map (·.name) =
+      c.inherited.map (·.name) ++
+        (managedAttrs c).filter (fun a => !(c.inherited.map (·.name)).contains a) := by
+  unfold mergedBase inheritedPart
+  rw [List.map_append, List.map_map, List.map_map]
+  congr 1
+  · apply List.map_congr_left
+    intro i _
+    simp only [Function.comp]
+    split <;> rfl
+  · conv => rhs; rw [← List.map_id (List.filter _ _)]
+    apply List.map_congr_left
+    intro a _
+    rfl
+
+theorem mergedAttrs_names_nodup (singular : Name → Option Name) (c : Cls)
+    (h : (c.inherited.map (·.name)).Nodup) : ((mergedAttrs singular c).map (·.name)).Nodup := by
+  have hbase : ((mergedBase singular c).map (·.name)).Nodup := by
+    rw [mergedBase_names, List.nodup_append]
+    refine ⟨h, (nodup_dedup _).sublist List.filter_sublist, ?_⟩
+    intro a ha b hb hab
+    subst hab
+    have := (List.mem_filter.1 hb).2
+    simp [ha] at this
+  rw [mergedAttrs_eq, List.map_append]
+  unfold mergedKey
+  cases c.key with
+  | none => simpa using hbase
+  | some k =>
+    simp only
+    split
+    · simpa using hbase
+    · rename_i hnot
+      rw [List.nodup_append]
+      refine ⟨hbase, by simp, ?_⟩
+      intro a ha b hb hab
+      simp at hb; subst hb; subst hab
+      apply hnot
+      simpa using ha
+
+/-- an owned attribute enters the collision loop with its singular form as item name -/
+theorem mergedAttrs_owned (singular : Name → Option Name) (c : Cls) :
+    ∀ x ∈ mergedAttrs singular c, x.owned = true → x.item = itemName0 singular x.name := by
+  intro x hx ho
+  rw [mergedAttrs_eq] at hx
+  rcases List.mem_append.1 hx with hx | hx
+  · unfold mergedBase inheritedPart at hx
+    rcases List.mem_append.1 hx with hx | hx
+    · obtain ⟨i, _, rfl⟩ := List.mem_map.1 hx
+      by_cases hc : (managedAttrs c).contains i.name = true
+      · rw [if_pos hc]; rfl
+      · rw [if_neg hc] at ho; cases ho
+    · obtain ⟨a, _, rfl⟩ := List.mem_map.1 hx
+      rfl
+  · unfold mergedKey at hx
+    cases hk : c.key with
+    | none => rw [hk] at hx; cases hx
+    | some k =>
+      rw [hk] at hx
+      simp only at hx
+      split at hx
+      · cases hx
+      · simp at hx; subst hx; rfl
+
+/-- an inherited attribute the class does not manage again enters the loop as the parent left it -/
+theorem inheritedPart_kept (singular : Name → Option Name) (c : Cls) {i : Inherited}
+    (hi : i ∈ c.inherited) (hnot : (managedAttrs c).contains i.name = false) :
+    (⟨i.name, i.kind, i.item, false, true⟩ : AttrInfo) ∈ inheritedPart singular c := by
+  unfold inheritedPart
+  apply List.mem_map.2
+  refine ⟨i, hi, ?_⟩
+  have : ¬ (managedAttrs c).contains i.name = true := by rw [hnot]; simp
+  rw [if_neg this]
+
+/-- the inherited attributes are the FIRST to go through the collision loop -/
+theorem mergedAttrs_prefix (singular : Name → Option Name) (c : Cls) :
+    ∃ rest, mergedAttrs singular c = inheritedPart singular c ++ rest := by
+  rw [mergedAttrs_eq]
+  unfold mergedBase
+  exact ⟨_, List.append_assoc _ _ _⟩
+
 /-! ## lemmas used directly by `Props/C16.lean` -/
 
 theorem decorate_ok (singular : Name → Option Name) {c : Cls} {d : Decorated}
